@@ -12,7 +12,7 @@ Decided here (each a necessary condition of the statement):
   (f) RF-PAIR   page/network references released on every path; RF-UAF no use of a heap
                 block after free(); RF-INIT list nodes initialised before they are linked.
 """
-from .. import absint, atoms, ex, fieldinv, flow, ivl
+from .. import absint, atoms, ex, fieldinv, flow, heapinit, ivl, uaf
 from ..prog import AnalysisBroken
 
 CLAUSE = ("memory safety and termination shapes of the service decoder (20 anchored units): every subscript of a constant-size "
@@ -157,6 +157,10 @@ def run(ctx, run):
     _subscripts(ctx, run)
     _cursors(ctx, run)
     _asserts(ctx, run)
+    _heap(ctx, run)
+    _shifts(ctx, run)
+    _recursion(ctx, run)
+    _references(ctx, run)
     for k, (flds, iv, why) in ARG_ASSUME.items():
         if k in ctx.arg_assume_used:
             run.assumptions.append("argument `%s` of %s() at its call in %s() is in %s: %s" % (k[2], k[1], k[0], list(iv), why))
@@ -372,7 +376,7 @@ def _asserts(ctx, run):
     n = 0
     helpers = {}
     for f in P.funcs:
-        if f.unit not in UNITS:
+        if f.unit not in UNITS and not (f.file.endswith(".h") and any(cf.unit in UNITS for cf, ce in ctx.sums.callers.get(f.key, []))):
             continue
         sites = [(bid, i, msg) for bid, i, msg in ivl.assert_sites(f) if not ivl.is_pointer_assert(f, bid)]
         if not sites:
@@ -486,3 +490,245 @@ ASSERT_SPECIAL = {
     ("_vbi_cache_put_page", "death_count < N_ELEMENTS (death_row)"): _death_row_capacity,
     ("xds_separator", '!"reached"'): _xds_default,
 }
+
+
+# --------------------------------------------------------------------------------------
+# (f) heap discipline: no read of a freed block; list nodes complete before they are linked
+
+def _heap(ctx, run):
+    P = ctx.prog
+    n_free = n_nodes = 0
+    for f in P.funcs:
+        if f.unit not in UNITS:
+            continue
+        finds, nf = uaf.analyse(f)
+        n_free += nf
+        if nf:
+            run.touch(f)
+        reported = set()
+        for i, name, fn in finds:
+            key = "RF-UAF:%s:%s" % (f.name, name)
+            if key in reported:
+                continue
+            reported.add(key)
+            run.violation("RF-UAF", key, "`%s` is read at %s after `%s` released it and before it is assigned again: the list "
+                          "link / field is loaded from freed memory" % (name, ex.loc(f, i), ex.pretty(f, fn)), ex.loc(f, i),
+                          witness={"function": f.name, "variable": name, "free": ex.loc(f, fn), "use": ex.loc(f, i)})
+        if nf and not finds:
+            run.holds("RF-UAF", "RF-UAF:%s" % f.name, "%d free() call(s): no freed local pointer is read before reassignment" % nf,
+                      "%s:%d" % (f.file, f.line), nontrivial=True)
+        for site in heapinit.alloc_sites(f, P):
+            link = heapinit.self_linked(P, site[2])
+            if link is None:
+                continue
+            n_nodes += 1
+            st, miss, esc = heapinit.check(ctx, f, site)
+            key = "RF-INIT:%s:%s" % (f.name, site[2])
+            loc = ex.loc(f, esc if esc is not None else site[0])
+            miss = [m for m in (miss or []) if m != link]
+            if st == "violated" and miss:
+                run.violation("RF-INIT", key, "the %s node from malloc() is linked into the list at %s with field(s) %s never "
+                              "written on that path: they hold whatever the allocator returned" % (site[2], loc, ", ".join(miss)),
+                              loc, witness={"function": f.name, "record": site[2], "unwritten": miss})
+            else:
+                run.holds("RF-INIT", key, "every field of the malloc()ed %s node is written before the node is linked" % site[2], loc)
+    run.floor("free() calls in the anchored units", n_free, 40)
+    run.floor("malloc()ed list nodes", n_nodes, 1)
+
+
+# --------------------------------------------------------------------------------------
+# (c) shifts and integer divisions
+
+SHIFT_TRUSTED = {
+    ("get_bits", "left"): "bs->left (bits left in the 18 bit triplet buffer) stays in 0 ... 18: set to 18 - n with 0 < n <= count <= 18 "
+                          "or decreased by count <= left (relation between two fields of the bit reader)",
+    ("get_bits", "local"): "n = count - bs->left > 0 and <= 18 (same relation)",
+    ("search_page_fwd", "start_pgno"): "page numbers 0x100 ... 0x8FF supplied by the application / the page walk (non-negative)",
+    ("search_page_fwd", "stop_pgno"): "as above",
+    ("search_page_rev", "start_pgno"): "as above",
+    ("search_page_rev", "stop_pgno"): "as above",
+    ("enhance", "local"): "page = normal * 16 + drcs_s1[normal] >= 0 (see the drcs[] subscript entry)",
+}
+
+
+def _shifts(ctx, run):
+    P = ctx.prog
+    n = 0
+    for f in P.funcs:
+        if f.unit not in UNITS and not f.file.endswith("hamm.h"):
+            continue
+        pos = flow.elem_pos(f)
+        reach = f.reachable_blocks()
+        an = None
+        for i, e in enumerate(f.exprs):
+            if not (e["k"] in ("bin", "asg") and e.get("op") in ("<<", ">>", "<<=", ">>=", "/", "%", "/=", "%=")):
+                continue
+            p = pos.get(i)
+            if p is None or p[0] not in reach or "v" in e or "it" not in e:
+                continue
+            an = an or ctx.analysis(f)
+            if an is None:
+                continue
+            st = an.state_before_expr(i)
+            if st is None:
+                continue
+            a, b = e["c"]
+            op = e["op"].rstrip("=") if e["k"] == "asg" else e["op"]
+            if "it" not in f.exprs[ex.skip(f, b)] and ex.const(f, b) is None:
+                continue            # floating point
+            vb = an.eval(st, b)
+            n += 1
+            run.touch(f)
+            sh_b = "+".join(sorted(x.split(".")[-1] for x in atoms.Operand(f, b).fields)) or "local"
+            sh_a = "+".join(sorted(x.split(".")[-1] for x in atoms.Operand(f, a).fields)) or "local"
+            shape = "%s/%s" % (sh_a, sh_b)
+            key = "RF-SHIFT:%s:%s:%s" % (f.name, op, shape)
+            loc = ex.loc(f, i)
+            if op in ("/", "%"):
+                if (vb[0] is not None and vb[0] > 0) or (vb[1] is not None and vb[1] < 0):
+                    run.holds("RF-SHIFT", key, "%s: divisor in %s, never zero" % (ex.pretty(f, i)[:60], vb), loc,
+                              nontrivial=ex.const(f, b) is None)
+                else:
+                    run.violation("RF-SHIFT", key, "%s: the divisor interval %s contains zero" % (ex.pretty(f, i)[:70], vb), loc,
+                                  witness={"function": f.name, "divisor": list(vb)})
+                continue
+            bits = e["it"][0]
+            ok_amt = vb[0] is not None and vb[0] >= 0 and vb[1] is not None and vb[1] < bits
+            va = an.eval(st, a)
+            lt = f.exprs[ex.skip(f, a)].get("it") or e["it"]
+            neg_left = op == "<<" and lt[1] and not (va[0] is not None and va[0] >= 0)
+            if ok_amt and not neg_left:
+                run.holds("RF-SHIFT", key, "%s: amount in %s of %d bits, left operand %s" % (ex.pretty(f, i)[:60], vb, bits, va), loc,
+                          nontrivial=ex.const(f, b) is None)
+                continue
+            tr = None
+            for (fn, fld), why in SHIFT_TRUSTED.items():
+                if fn == f.name and fld in ((sh_b if not ok_amt else sh_a).split("+")):
+                    tr = why
+            if tr is not None:
+                _USED.add(key)
+                run.holds("RF-SHIFT", key, "TRUSTED (amount %s, left %s; not decided by the interval analysis): %s" % (vb, va, tr),
+                          loc, nontrivial=False)
+                continue
+            if not ok_amt:
+                run.violation("RF-SHIFT", key, "%s: the shift amount interval %s is not inside 0 ... %d" % (ex.pretty(f, i)[:70], vb, bits - 1),
+                              loc, witness={"function": f.name, "amount": list(vb), "bits": bits})
+            else:
+                run.violation("RF-SHIFT", key, "%s: left shift of a signed value that may be negative (%s): undefined" % (ex.pretty(f, i)[:70], va),
+                              loc, witness={"function": f.name, "left": list(va)})
+    run.floor("variable shifts and integer divisions", n, 250)
+
+
+# --------------------------------------------------------------------------------------
+# (d) recursion inventory
+
+def _recursion(ctx, run):
+    P = ctx.prog
+    S = ctx.sums
+    funcs = [f for f in P.funcs if f.unit in UNITS]
+    keys = {f.key for f in funcs}
+    idx, low, stack, on, sccs = {}, {}, [], set(), []
+    counter = [0]
+
+    def strong(f):
+        # iterative Tarjan
+        work = [(f, iter([t for t in S.callees(f) if t.key in keys]))]
+        idx[f.key] = low[f.key] = counter[0]
+        counter[0] += 1
+        stack.append(f)
+        on.add(f.key)
+        while work:
+            g, it = work[-1]
+            adv = False
+            for t in it:
+                if t.key not in idx:
+                    idx[t.key] = low[t.key] = counter[0]
+                    counter[0] += 1
+                    stack.append(t)
+                    on.add(t.key)
+                    work.append((t, iter([u for u in S.callees(t) if u.key in keys])))
+                    adv = True
+                    break
+                elif t.key in on:
+                    low[g.key] = min(low[g.key], idx[t.key])
+            if adv:
+                continue
+            work.pop()
+            if work:
+                low[work[-1][0].key] = min(low[work[-1][0].key], low[g.key])
+            if low[g.key] == idx[g.key]:
+                comp = []
+                while True:
+                    h = stack.pop()
+                    on.discard(h.key)
+                    comp.append(h)
+                    if h.key == g.key:
+                        break
+                if len(comp) > 1 or any(t.key == g.key for t in S.callees(g)):
+                    sccs.append(comp)
+
+    for f in funcs:
+        if f.key not in idx:
+            strong(f)
+    found = {tuple(sorted(g.name for g in c)) for c in sccs}
+    expected = {("enhance",), ("itv_separator",)}
+    for c in sorted(found - expected):
+        g = [x for comp in sccs for x in comp if x.name == c[0]][0]
+        run.violation("RF-REC", "RF-REC:cycle:%s" % "+".join(c), "new call cycle %s in the decoder: recursion depth is not bounded "
+                      "by any guard this check knows" % " -> ".join(c + (c[0],)), "%s:%d" % (g.file, g.line))
+    if expected - found:
+        raise AnalysisBroken("recursion inventory: expected cycle(s) %s not found (anchor vanished)" % sorted(expected - found))
+    # itv_separator: the self-call passes a constant below 0x20 and sits in the branch c >= 0x20
+    f = P.need("itv_separator", "src/caption.c")
+    run.touch(f)
+    for bid, i in flow.all_events(f):
+        e = f.exprs[i]
+        if e["k"] == "call" and e.get("callee") == "itv_separator":
+            c = ex.const(f, e["c"][2]) if len(e.get("c", [])) > 2 else None
+            guard = any(a.rel in (">=", ">") and a.R is not None and a.R.const in (0x20, 0x1F) and not a.L.fields for a in atoms.atoms_at(f, i))
+            key = "RF-REC:itv_separator:self-call"
+            if c is not None and c < 0x20 and guard:
+                run.holds("RF-REC", key, "the nested call passes the constant %d, which takes the non-recursive branch (the call sits "
+                          "under c >= 0x20): depth 2" % c, ex.loc(f, i))
+            else:
+                run.violation("RF-REC", key, "the nested itv_separator() call no longer passes a constant below 0x20 from the "
+                              "c >= 0x20 branch: the recursion is not bounded", ex.loc(f, i))
+    # enhance: new_type > type dominates the self-call, new_type is the callee's type, type <= 3
+    f = P.need("enhance", "src/teletext.c")
+    run.touch(f)
+    an = ctx.analysis(f)
+    tpos = [k for k, p in enumerate(f.params) if p["name"] == "type"]
+    nrec = 0
+    for bid, i in flow.all_events(f):
+        e = f.exprs[i]
+        if e["k"] == "call" and e.get("callee") == "enhance":
+            nrec += 1
+            key = "RF-REC:enhance:self-call"
+            arg = e["c"][tpos[0]] if tpos else None
+            ats = atoms.atoms_at(f, i)
+            inc = False
+            for a in ats:
+                ln = ex.pretty(f, a.L.node) if a.L is not None else ""
+                rn = ex.pretty(f, a.R.node) if a.R is not None and a.R.node is not None else ""
+                if (a.rel == ">" and "new_type" in ln and rn.strip("()") == "type") or (a.rel == "<" and ln.strip("()") == "type" and "new_type" in rn):
+                    inc = True
+            st = an.state_before_expr(i)
+            v = an.eval(st, arg) if st is not None and arg is not None else (None, None)
+            argname = ex.pretty(f, arg).strip("()") if arg is not None else "?"
+            if inc and argname == "new_type" and v[1] is not None and v[1] <= 3:
+                run.holds("RF-REC", key, "the nested enhance() call is dominated by new_type > type and passes new_type (in %s) as "
+                          "the new type: depth <= 3" % (v,), ex.loc(f, i))
+            else:
+                run.violation("RF-REC", key, "the nested enhance() call is not guarded by a strictly increasing, bounded object type "
+                              "(guard new_type > type: %s, argument `%s` in %s): objects can invoke each other without bound"
+                              % (inc, argname, v), ex.loc(f, i), witness={"atoms": [repr(a) for a in ats]})
+    run.floor("recursive enhance() call sites", nrec, 1)
+
+
+# --------------------------------------------------------------------------------------
+# (f) references: every page / network reference obtained is released (the leak clause)
+
+def _references(ctx, run):
+    from . import C10
+    C10._pairing(ctx, run, "page", C10.PAGE_ACQ, C10.PAGE_REL, "cache_page", C10.MOVERS, 14)
+    C10._pairing(ctx, run, "network", C10.NET_ACQ, C10.NET_REL, "cache_network", {}, 2)
